@@ -250,9 +250,16 @@ def child_stats(parent_stats, table, q, prefix, atom):
 
 # ----------------------------------------------------------------------------- strategies
 class _NoArgs:
+    """REG strategies have no settings of their own; the four library flags survive a JSON round trip."""
+
+    DEFAULTS: dict = {}
+
+    def __init__(self, **flags):
+        super().__init__(**{**self.DEFAULTS, **flags})
+
     @classmethod
     def from_dict(cls, d):
-        return cls()
+        return cls(**d)
 
     def __repr__(self):
         return type(self).__name__ + "()"
@@ -323,8 +330,7 @@ class PeelPrefix(_NoArgs, CartesianProductStrategy):
 class MergeState(_NoArgs, DisjointUnionStrategy):
     """Inferral: a state with the same row as a smaller state accepts the same language."""
 
-    def __init__(self):
-        super().__init__(ignore_parent=True, inferrable=True, possibly_empty=False, workable=True)
+    DEFAULTS = dict(ignore_parent=True, inferrable=True, possibly_empty=False, workable=True)
 
     def _target(self, c):
         if c.atom:
@@ -382,7 +388,11 @@ class StatAtom(_NoArgs, VerificationStrategy):
     """Atoms of classes with statistics (the library's AtomStrategy declines those by design)."""
 
     def __init__(self):
-        super().__init__(ignore_parent=True)
+        VerificationStrategy.__init__(self, ignore_parent=True)
+
+    @classmethod
+    def from_dict(cls, d):
+        return cls()
 
     def verified(self, c):
         return bool(c.is_atom())
@@ -422,6 +432,13 @@ class StatAtom(_NoArgs, VerificationStrategy):
 
 class FiniteLang(_NoArgs, VerificationStrategy):
     """Verifies finite (non-atom, non-empty) languages and offers a pack to expand them."""
+
+    def __init__(self):
+        VerificationStrategy.__init__(self)
+
+    @classmethod
+    def from_dict(cls, d):
+        return cls()
 
     def verified(self, c):
         return (not c.atom) and (not c.is_empty()) and c.t.finite_from(c.q)
